@@ -4,6 +4,8 @@ import (
 	"fmt"
 	"strings"
 	"testing"
+	"time"
+	"verifharness/cli"
 
 	"pgregory.net/rapid"
 
@@ -19,6 +21,34 @@ type C04Case struct {
 	Seed uint64         `json:"seed"` // drives the evasion-string sampler
 	Pure bool           `json:"pure"` // the program is a single cmdline block at top level
 	Lab  []string       `json:"labels,omitempty"`
+	// CfgName: the configuration file has this name instead of toolchain.yaml and is named with -f;
+	// FFirst: -f is written in front of -d on the command line
+	CfgName string `json:"cfg_name,omitempty"`
+	FFirst  bool   `json:"f_first,omitempty"`
+}
+
+// runC04 generates from the program, with the configuration file under the name the case says.
+func runC04(c C04Case) cli.Result {
+	if c.CfgName == "" {
+		return generate(c.Prog)
+	}
+	sb := cli.NewSandbox("c04")
+	defer sb.Close()
+	tree := cli.Tree(c.Prog.Tree())
+	for _, k := range []string{"regex-assembly/toolchain.yaml", "regex-assembly/toolchain.yaml/"} {
+		if v, ok := tree[k]; ok {
+			delete(tree, k)
+			tree[strings.Replace(k, "toolchain.yaml", c.CfgName, 1)] = v
+		}
+	}
+	if err := tree.Write(sb.Path("crs")); err != nil {
+		panic(err)
+	}
+	args := []string{"-d", sb.Path("crs"), "-f", c.CfgName}
+	if c.FFirst {
+		args = []string{"-f", c.CfgName, "-d", sb.Path("crs")}
+	}
+	return cli.Run(cli.Opt{Dir: sb.Root, Stdin: c.Prog.MainText(), Timeout: 30 * time.Second}, append(args, "regex", "generate", "-")...)
 }
 
 var evasionPool = []string{`[\x5c'\"\[]*(?:\$[a-z0-9_@?!#{(*-]*)?(?:\x5c)?`, `[\"\^]*`, `x?`, `(?:\$[a-z]*)?`, `\s*`, `[\x5c'\"]*`, `(?:''|\x5c)?`, `_*`, ``}
@@ -138,7 +168,14 @@ func genC04(t *rapid.T) C04Case {
 	}
 	g.Prog.ConfigIsDir = isDir
 	g.Labels["config:"+cfgKind] = true
-	return C04Case{Prog: g.Prog, Cfg: g.Cfg, Seed: rapid.Uint64().Draw(t, "sampleseed"), Pure: pure, Lab: labelsOf(g.Labels)}
+	c := C04Case{Prog: g.Prog, Cfg: g.Cfg, Seed: rapid.Uint64().Draw(t, "sampleseed"), Pure: pure}
+	if rapid.IntRange(0, 3).Draw(t, "cfgname") == 0 {
+		c.CfgName = rapid.SampledFrom([]string{"custom-config.yaml", "toolchain-test.yml", "cfg"}).Draw(t, "cfgnamev")
+		c.FFirst = rapid.Bool().Draw(t, "ffirst")
+		g.Labels["configuration-named-with-f"] = true
+	}
+	c.Lab = labelsOf(g.Labels)
+	return c
 }
 
 func checkC04(c C04Case) Outcome {
@@ -153,8 +190,9 @@ func checkC04(c C04Case) Outcome {
 		out.HarnessError = "no plain reading: " + err.Error()
 		return out
 	}
-	r := generate(c.Prog)
+	r := runC04(c)
 	out.Detail["program"] = c.Prog.MainText()
+	out.Detail["cfg_name"], out.Detail["f_first"] = c.CfgName, c.FFirst
 	if c.Prog.Config != nil {
 		out.Detail["toolchain.yaml"] = *c.Prog.Config
 	}
